@@ -325,6 +325,38 @@ func (w *World) PostSigned(i int, round, event string, data []byte, to string) s
 }
 
 // RestartNode closes node i and opens it again on the same state directory, as a process restart does.
+// ReplaceMachine gives participant i a new airgapped machine (another mnemonic, hence other long-term keys) under
+// the same user name, as after the loss of the old device. Machines of the other participants keep running.
+func (w *World) ReplaceMachine(i int, tag string) error {
+	w.Machines[i].Close()
+	m, err := OpenMachine(w.machineDir(i)+"-"+tag, w.resultDir(i)+"-"+tag, MnemonicFromEntropy(derive(w.Seed, "replaced-machine-"+tag, i)), passwordOf(i), true)
+	if err != nil {
+		return err
+	}
+	w.Machines[i] = m
+	return nil
+}
+
+// Age lets d of virtual time pass with every node process stopped (operators come back to a ceremony days later),
+// then starts the nodes again on their state directories.
+func (w *World) Age(d time.Duration) error {
+	for _, n := range w.Nodes {
+		n.Close()
+	}
+	Drain()
+	time.Sleep(d)
+	for i, old := range w.Nodes {
+		n, err := OpenNode(old.Name, old.Dir, old.KeyPair, old.View, false)
+		if err != nil {
+			return err
+		}
+		w.Nodes[i] = n
+		n.Start()
+	}
+	w.Tick()
+	return nil
+}
+
 func (w *World) RestartNode(i int) error {
 	old := w.Nodes[i]
 	old.Close()
